@@ -798,3 +798,8 @@ def run(ctx: Ctx, rep: Report, tier: str) -> None:
     r06_1(ctx, rep)
     normalise_first(ctx, rep, rid="R06.2")
     r06_3(ctx, rep)
+
+
+# what the later rounds (seeding rounds 2-5, refactor twins, defect hunt) added to what the check decides
+LATER_ROUNDS = "headers round-trip (writer and reader partially evaluated on witness names), no reader bounds a length the writer can exceed"
+EXPLANATION = EXPLANATION.replace(" Does not decide", " Later rounds added: " + LATER_ROUNDS + ". Does not decide", 1) if " Does not decide" in EXPLANATION else EXPLANATION + " Later rounds added: " + LATER_ROUNDS + "."
